@@ -4,9 +4,11 @@ import (
 	"bytes"
 	"errors"
 	"fmt"
+	"math"
 	"sort"
 	"strings"
 	"sync"
+	"time"
 
 	"github.com/ostafen/clover/v2/index"
 	"github.com/ostafen/clover/v2/store"
@@ -18,13 +20,20 @@ import (
 
 var rangeW = []interface{}{nil, int64(0), int64(1), float64(1.5), int64(2), "", "a", "ab", true, []interface{}{int64(1)}}
 
+// rangeByteCorners: values whose order-preserving key encoding ends in 0xFF / 0x00 / 0x01 or that sit at the
+// extremes of their type, plus prefix-related strings with 0x00 / 0xFF bytes.
+var rangeByteCorners = []interface{}{nil, float64(0.9999999999999999), float64(1), math.Nextafter(1, 2), float64(9007199254740991), float64(-0.9999999999999999), math.MaxFloat64, -math.MaxFloat64,
+	int64(255), int64(256), "a", "a\x00", "a\xff", "a\xff\xff", "b", time.Unix(0, 255).UTC(), time.Unix(0, 256).UTC(), time.Unix(0, 0xffff).UTC(), []interface{}{float64(0.9999999999999999)}, false}
+
 type idxEntry struct {
 	v  interface{}
 	id string
 }
 
 // indexContents: every multiset over W with at most 2 ids per value and at most maxEntries entries.
-func indexContents(maxEntries int) [][]idxEntry {
+func indexContents(maxEntries int) [][]idxEntry { return indexContentsOver(rangeW, maxEntries) }
+
+func indexContentsOver(rangeW []interface{}, maxEntries int) [][]idxEntry {
 	out := [][]idxEntry{}
 	var rec func(i int, cur []idxEntry)
 	rec = func(i int, cur []idxEntry) {
@@ -86,7 +95,9 @@ func (r refRange) clover() *index.Range {
 	return &index.Range{Start: m.Clone(r.Start), End: m.Clone(r.End), StartIncluded: r.SI, EndIncluded: r.EI}
 }
 
-func allRanges() []refRange {
+func allRanges() []refRange { return allRangesOver(rangeW) }
+
+func allRangesOver(rangeW []interface{}) []refRange {
 	out := []refRange{{nil, nil, true, true}}
 	for _, s := range rangeW {
 		for _, e := range rangeW {
@@ -110,10 +121,19 @@ var errStop = errors.New("stop requested by the consumer")
 
 // RangeSweep: all index contents x all ranges x both directions x every stop position, on a real store (C17).
 func RangeSweep(run *ev.Run, backend string, maxEntries int) {
-	contents := indexContents(maxEntries)
-	ranges := allRanges()
-	run.Set("index_contents", len(contents))
-	run.Set("ranges", len(ranges))
+	rangeSweepOver(run, backend, "base", rangeW, maxEntries)
+}
+
+// RangeSweepByteCorners: the same sweep over values chosen for their key bytes.
+func RangeSweepByteCorners(run *ev.Run, backend string, maxEntries int) {
+	rangeSweepOver(run, backend, "byte-corners", rangeByteCorners, maxEntries)
+}
+
+func rangeSweepOver(run *ev.Run, backend, set string, values []interface{}, maxEntries int) {
+	contents := indexContentsOver(values, maxEntries)
+	ranges := allRangesOver(values)
+	run.Set(set+"_index_contents", len(contents))
+	run.Set(set+"_ranges", len(ranges))
 	var mu sync.Mutex
 	stores := map[int]store.Store{}
 	dirs := map[int]string{}
@@ -284,7 +304,7 @@ func RangeSweep(run *ev.Run, backend string, maxEntries int) {
 				}
 			}
 		}
-		run.Distinct("contents", fmt.Sprint(ci))
+		run.Distinct("contents", set+fmt.Sprint(ci))
 		if ci%97 == 0 {
 			run.Sample(map[string]interface{}{"backend": backend, "index_entries": len(content), "ranges": len(ranges), "directions": 2})
 		}
